@@ -24,6 +24,10 @@ var labelVals = []string{"aws", "gcp", "x", "ab", "a-b", "é"}
 var scopeIds = []lang.ScopeId{"", "variable", "resource", "local"}
 var refRoots = []string{"var", "local", "data", "res", "blk", "self", "count", "each", "a"}
 
+// depKeyIndex remembers, per generated block schema, the dependency keys its dependent bodies are
+// registered under, so that the configuration generator can write blocks that select them.
+var depKeyIndex = map[*schema.BlockSchema][]schema.DependencyKeys{}
+
 type GenOpts struct {
 	MaxDepth     int
 	Degenerate   bool // keep Validate()-accepted but unusual shapes (nil bodies, empty one-of, nil elems)
@@ -264,7 +268,7 @@ func genBodySchema(r *rand.Rand, depth int, o *GenOpts, top bool) *schema.BodySc
 		Detail:      pick(r, []string{"", "detail"}),
 	}
 	if !o.NoExtensions && r.Intn(3) == 0 {
-		bs.Extensions = &schema.BodyExtensions{Count: r.Intn(2) == 0, ForEach: r.Intn(2) == 0, DynamicBlocks: r.Intn(3) == 0, SelfRefs: r.Intn(2) == 0}
+		bs.Extensions = &schema.BodyExtensions{Count: r.Intn(2) == 0, ForEach: r.Intn(2) == 0, DynamicBlocks: r.Intn(2) == 0, SelfRefs: r.Intn(2) == 0}
 	}
 	if r.Intn(6) == 0 && !top {
 		bs.AnyAttribute = genAttrSchema(r, 1, o, true)
@@ -340,7 +344,7 @@ func genBlockSchema(r *rand.Rand, depth int, o *GenOpts) *schema.BlockSchema {
 		}
 		b.Labels = append(b.Labels, l)
 	}
-	if !(o.Degenerate && r.Intn(4) == 0) {
+	if !(o.Degenerate && r.Intn(3) == 0) {
 		b.Body = genBodySchema(r, depth, o, false)
 	}
 	depAttr := ""
@@ -375,13 +379,23 @@ func genBlockSchema(r *rand.Rand, depth int, o *GenOpts) *schema.BlockSchema {
 				dk.Attributes = append(dk.Attributes, schema.AttributeDependent{Name: depAttr, Expr: ev})
 			}
 			db := genBodySchema(r, depth, o, false)
-			if r.Intn(4) == 0 && db.Attributes != nil {
-				// second level of dependency keys
+			if r.Intn(2) == 0 {
+				// second level of dependency keys: the nested lookup uses the labels plus the
+				// dependency-key attributes of the first-level dependent body only
+				if db.Attributes == nil {
+					db.Attributes = map[string]*schema.AttributeSchema{}
+					db.AnyAttribute = nil
+				}
 				db.Attributes["mode"] = &schema.AttributeSchema{Constraint: schema.LiteralType{Type: cty.String}, IsOptional: true, IsDepKey: true}
-				dk2 := copyKeys(dk)
+				if r.Intn(3) == 0 {
+					db.Attributes["mode"].DefaultValue = schema.DefaultValue{Value: cty.StringVal("m1")}
+				}
+				dk2 := schema.DependencyKeys{Labels: append([]schema.LabelDependent{}, dk.Labels...)}
 				dk2.Attributes = append(dk2.Attributes, schema.AttributeDependent{Name: "mode", Expr: schema.ExpressionValue{Static: cty.StringVal("m1")}})
-				b.DependentBody[schema.NewSchemaKey(copyKeys(dk2))] = genBodySchema(r, 0, o, false)
+				b.DependentBody[schema.NewSchemaKey(copyKeys(dk2))] = genBodySchema(r, depth, o, false)
+				depKeyIndex[b] = append(depKeyIndex[b], dk2)
 			}
+			depKeyIndex[b] = append(depKeyIndex[b], dk)
 			b.DependentBody[schema.NewSchemaKey(copyKeys(dk))] = db
 		}
 	}
@@ -660,6 +674,7 @@ type cfgGen struct {
 	sb    strings.Builder
 	Decls []Decl
 	inj   bool // inject violations
+	forced map[string]string // dependency-key attribute values chosen for the block being written
 }
 
 func (g *cfgGen) indent(d int) string { return strings.Repeat("  ", d) }
@@ -767,7 +782,13 @@ func (g *cfgGen) body(bs *schema.BodySchema, d int, depth int) {
 func (g *cfgGen) attr(n string, as *schema.AttributeSchema, d int) string {
 	txt := g.eg.forCons(as.Constraint, 2)
 	if as.IsDepKey {
-		txt = pick(g.r, []string{`"v1"`, `"v2"`, `"v1"`, "var.a", `"other"`})
+		txt = pick(g.r, []string{`"v1"`, `"v2"`, `"m1"`, `"m1"`, "var.a", `"other"`})
+		if n != "mode" {
+			txt = pick(g.r, []string{`"v1"`, `"v2"`, `"v1"`, "var.a", `"other"`})
+		}
+		if f, ok := g.forced[n]; ok && g.r.Intn(5) > 0 {
+			txt = f
+		}
 	}
 	fmt.Fprintf(&g.sb, "%s%s = %s\n", g.indent(d), n, txt)
 	g.Decls = append(g.Decls, Decl{Kind: "attr", Name: n, Depth: d, Known: true})
@@ -785,8 +806,20 @@ func (g *cfgGen) block(bt string, bs *schema.BlockSchema, d int, depth int) {
 	}
 	var labels []string
 	hdr := bt
+	var chosen *schema.DependencyKeys
+	if ks := depKeyIndex[bs]; len(ks) > 0 && r.Intn(4) > 0 {
+		k := ks[r.Intn(len(ks))]
+		chosen = &k
+	}
 	for i := 0; i < nl; i++ {
 		v := pick(r, labelVals)
+		if chosen != nil {
+			for _, l := range chosen.Labels {
+				if l.Index == i {
+					v = l.Value
+				}
+			}
+		}
 		labels = append(labels, v)
 		if r.Intn(6) == 0 && isIdent(v) {
 			hdr += " " + v
@@ -803,6 +836,18 @@ func (g *cfgGen) block(bt string, bs *schema.BlockSchema, d int, depth int) {
 		for _, n := range sortedKeys(bs.Body.Attributes) {
 			if bs.Body.Attributes[n].IsDepKey && r.Intn(3) > 0 {
 				attrVals[n] = pick(r, []string{"v1", "v2"})
+			}
+		}
+	}
+	g.forced = map[string]string{}
+	if chosen != nil {
+		for _, a := range chosen.Attributes {
+			if a.Expr.Static.Type() == cty.String && !a.Expr.Static.IsNull() {
+				attrVals[a.Name] = a.Expr.Static.AsString()
+				g.forced[a.Name] = fmt.Sprintf("%q", a.Expr.Static.AsString())
+			} else if len(a.Expr.Address) > 0 {
+				delete(attrVals, a.Name)
+				g.forced[a.Name] = a.Expr.Address.String()
 			}
 		}
 	}
